@@ -546,6 +546,8 @@ func checkC19(c *Ctx) {
 	checkResetTogether(c, "R9")
 	c.Rule("R10", "the HOTKEY report lists the tracked key names verbatim")
 	checkReportNamesVerbatim(c, "R10")
+	c.Rule("R11", "the report is built from bytes the handler owns: the bytes of a pooled buffer are only copied out of the function that releases it (shared with C13.R11)")
+	checkPooledBytesEscape(c, "R11")
 }
 
 var le19cache *lockEngine
@@ -788,4 +790,131 @@ func checkReportNamesVerbatim(c *Ctx, rule string) {
 		return
 	}
 	c.Check(bad == "", rule, "HOTKEY report lists the tracked names verbatim", at, "names go into the reply unchanged", "a tracked key name passes through "+bad+" on its way into the reply: the report lists a name that no client accessed, and two tracked keys with a common prefix are listed as the same key twice")
+}
+
+// checkPooledBytesEscape (C19.R11, C13.R11): a buffer taken from a sync.Pool is handed to the next user as soon as it
+// is released; the slice returned by its Bytes() aliases the pooled array. Wherever a function takes a pooled buffer
+// and releases it (Close / Put, deferred or not), the bytes it obtains from the buffer may only be copied out (copy,
+// append-spread, string conversion, standard-library writers) - they must not be stored, returned, or handed to module
+// code that keeps them: the HOTKEY report (or a decompressed value) would be rewritten by the next pool user before
+// the session writer encodes it.
+func checkPooledBytesEscape(c *Ctx, rule string) {
+	p := c.P
+	// pooled constructors: module functions that Get from a sync.Pool and return a wrapper of the pooled object
+	pooledCtor := map[*ssa.Function]bool{}
+	for _, fn := range p.FuncsIn(redisPkg) {
+		if p.isTestFn(fn) || fn.Signature.Results().Len() != 1 {
+			continue
+		}
+		gets := false
+		eachInstr(fn, func(_ *ssa.BasicBlock, _ int, in ssa.Instruction) {
+			if cc := callOf(in); cc != nil {
+				if g := calleeFn(cc); g != nil && g.String() == "(*sync.Pool).Get" {
+					gets = true
+				}
+			}
+		})
+		if gets {
+			pooledCtor[fn] = true
+		}
+	}
+	n, nbad := 0, 0
+	for _, fn := range p.FuncsIn(redisPkg) {
+		if p.isTestFn(fn) || pooledCtor[fn] {
+			continue
+		}
+		var bufs []ssa.Value
+		eachInstr(fn, func(_ *ssa.BasicBlock, _ int, in ssa.Instruction) {
+			if call, ok := in.(*ssa.Call); ok {
+				if g := calleeFn(call.Common()); g != nil && pooledCtor[g] {
+					bufs = append(bufs, call)
+				}
+			}
+		})
+		if len(bufs) == 0 {
+			continue
+		}
+		eachInstr(fn, func(_ *ssa.BasicBlock, _ int, in ssa.Instruction) {
+			call, ok := in.(*ssa.Call)
+			if !ok {
+				return
+			}
+			g := calleeFn(call.Common())
+			if g == nil || g.String() != "(*bytes.Buffer).Bytes" {
+				return
+			}
+			// the receiver is (the embedded buffer of) a pooled wrapper of this function
+			fromPool := derives(call.Call.Args[0], func(v ssa.Value) bool {
+				for _, b := range bufs {
+					if v == b {
+						return true
+					}
+				}
+				return false
+			})
+			if !fromPool {
+				return
+			}
+			n++
+			site := fmt.Sprintf("%s pooled bytes#%d are only copied out", fnKey(fn), n)
+			var escape ssa.Instruction
+			var visit func(v ssa.Value, depth int)
+			visit = func(v ssa.Value, depth int) {
+				if escape != nil || depth > 4 {
+					return
+				}
+				for _, r := range *v.Referrers() {
+					switch x := r.(type) {
+					case *ssa.Call:
+						if isBuiltin(x, "len") || isBuiltin(x, "cap") {
+							continue
+						}
+						if isBuiltin(x, "copy") && len(x.Call.Args) == 2 && x.Call.Args[1] == v && x.Call.Args[0] != v {
+							continue
+						}
+						if isBuiltin(x, "append") && len(x.Call.Args) == 2 && x.Call.Args[1] == v && x.Call.Args[0] != v {
+							continue
+						}
+						if h := calleeFn(x.Common()); h != nil && !isModFn(h) {
+							continue // standard library: writers and decoders do not retain their argument
+						}
+						if x.Call.IsInvoke() {
+							if nm := x.Call.Method.Name(); nm == "Write" || nm == "Decode" {
+								continue
+							}
+						}
+						escape = x
+					case *ssa.Slice:
+						visit(x, depth+1)
+					case *ssa.Convert:
+						if isStringVal(x) {
+							continue // copies
+						}
+						visit(x, depth+1)
+					case *ssa.ChangeType:
+						visit(x, depth+1)
+					case *ssa.IndexAddr, *ssa.Index, *ssa.DebugRef:
+						continue
+					case *ssa.Phi:
+						visit(x, depth+1)
+					default:
+						if in2, ok := r.(ssa.Instruction); ok {
+							escape = in2
+						}
+					}
+				}
+			}
+			visit(call, 0)
+			if escape != nil {
+				nbad++
+				c.Fail(rule, site, escape.Pos(), "the bytes of a pooled buffer leave the function that releases the buffer ("+p.Pos(escape.Pos())+"): the array goes back to the pool and the next user - another HOTKEY, or the compression of any request - overwrites it before the session writer encodes the reply, so the client reads a report (or a value) assembled from someone else's bytes")
+			} else {
+				c.OK(rule, site, call.Pos(), "the aliasing slice is only measured or copied out")
+			}
+		})
+	}
+	if n == 0 {
+		c.Unresolved(rule, "no Bytes() of a pooled buffer found in proc/redis")
+	}
+	_ = nbad
 }
